@@ -43,7 +43,8 @@ CHECKS = {
         text="Lean theorems: the model of every UnitValue / UnitArray operator method (forward and reflected, _neg/_inv, **, "
              "comparisons, Python's dispatch) is a homomorphism onto exact arithmetic on SI values and dimension vectors for all "
              "expression trees, all valid unit systems and all integer dimension vectors; dimensionally meaningless operations are "
-             "errors (the SI value of scalar ** is a hypothesis of the tree theorem, its dimension rule is proved); operator "
+             "errors; ** : unconditional for integer exponents, for non-integer exponents under the stated (satisfiable) contract "
+             "of the trusted float power; comparisons for all pairings incl. arrays; operator "
              "wiring regenerated from units.py. Tie: translator group UnitsOps + correspondence on random "
              "expression trees and an exhaustive operator x pairing table + per-node SI oracle on the real code.",
         note="Lean kernel + {propext, Classical.choice, Quot.sound}; translator; correspondence harness; float rounding within "
@@ -61,17 +62,29 @@ CHECKS = {
              "assumed within 1e-12 relative (checked on every sampled case, not proved).",
         technique="Lean 4 proof over translator-generated tables + differential correspondence",
         design="§6 C06"),
+    "C12": dict(
+        text="Lean theorems: key tables of every *_from_dict / *_to_dict / __init__ (regenerated from the sources on every run): "
+             "emitted keys accepted and canonical, every constructor parameter written and wired back, alias groups disjoint, "
+             "documented defaults and aliases; generic dictionary reader/writer model with round-trip, re-serialisation, alias "
+             "interchangeability, omitted-key defaults and path theorems. Tie: translator group DictKeys + correspondence "
+             "(model reader/writer vs real readers/writers) + field-by-field SI oracle on the real code through dictionaries, "
+             "JSON text and save/load files (multi-file layouts, external arrays, absolute/relative paths).",
+        note="Lean kernel + {propext, Classical.choice, Quot.sound}; translator; correspondence harness; json / numpy / float repr / "
+             "file system trusted; quantity float token and equation text are tokens carrying their value (C18/C19).",
+        technique="Lean 4 proof over translator-generated key tables + generic field-schema interpreter + differential correspondence",
+        design="§6 C12"),
     "C18": dict(
         text="Lean theorems about the executable model of parse_units / parse_unitvalue / Units.__str__ / UnitValue.__str__ / "
              "Units.__eq__ (tables and text-pipeline constants regenerated from units.py on every run): print->parse round trip "
              "for all 1100 valid systems x all integer exponent vectors (own int printer/reader round trip), quantity round trip "
-             "under the float(str(x))=x contract of the trusted primitives, grammar reading (text of any factor list is read back "
-             "as exactly its symbols and signed exponents), dimension = sum of the symbols' dimensions, invariance under "
-             "a/b <-> a.b-1 (whole result) and under factor order (dimension), base units named by every factor, u-spelling, one "
-             "rejection theorem per class of the statement (unknown symbol, doubled / dangling separator, signed positive, "
-             "fractional / misplaced exponent, embedded blank on the raw text, two units of one base kind, value not separated, "
-             "non-numeric value, blank inside a quantity's units). PARTIAL: the SI-scale product formula and 'consistent => "
-             "accepted' are not proved in Lean; they are checked exactly by the oracle. Tie: translator G1/G2 + UnitsText + "
+             "under the float(str(x))=x contract of the trusted primitives, grammar semantics in full (text of any factor list is "
+             "read back as exactly its symbols and signed exponents; accepted iff no two factors name different base units of one "
+             "kind, else raises; dimension = sum of the symbols' dimensions and SI scale = product of the symbols' SI values "
+             "(C06 SI spec) to the signed exponents; whole result invariant under a/b <-> a.b-1 and under factor order), "
+             "u-spelling, one rejection theorem per class of the statement (unknown symbol, doubled / dangling separator, signed "
+             "positive, fractional / misplaced exponent, embedded blank on the raw text, two units of one base kind, value not "
+             "separated, non-numeric value, blank inside a quantity's units — all on the raw text; unknown symbol and two units "
+             "on the factor blocks after the u->µ chain). Tie: translator G1/G2 + UnitsText + "
              "correspondence (all 1-factor strings, all symbol pairs x both separators, random 3-factor strings, round trips, "
              "malformed families from the documentation's wrong examples) + grammar-denotation / must-raise oracle on the real code.",
         note="Lean kernel + {propext, Classical.choice, Quot.sound}; translator; correspondence harness; float()/str(float) of "
@@ -99,11 +112,165 @@ CHECKS = {
              "geometry (S=a^2, d=a, volumes, environments); get_edge symmetric. Tie: translator IndexPy/GeomPy/EngineCpp + exhaustive "
              "correspondence over all small grids (every cell, pair, position) incl. the real engine's neighbour set observed through "
              "Euler steps and the kinetics functions' through derivatives + oracle; grid vs grid_to_graph trajectories / rate law on the real code.",
-        note="Lean kernel + {propext, Classical.choice, Quot.sound}; translator; correspondence harness. Partial: get_neighbors_iff / "
-             "kinetics_enum_iff / engine_nbr_iff (converse directions) and the grid_to_graph edge-multiset theorem are not proved for all "
-             "sizes (exhaustively checked for w,h,d<=3 quick / <=5 thorough); graph_rate_eq_grid_rate needs C01's engine model.",
+        note="Lean kernel + {propext, Classical.choice, Quot.sound}; translator; correspondence harness. get_neighbors_iff, "
+             "kinetics_enum_iff, engine_nbr_iff + engine_nbr_count (multiplicities on periodic axes of length 1 and 2) and "
+             "grid_to_graph_adjacency (soundness, completeness, multiplicity = faceCount) are proved for all sizes against the "
+             "independent Spec faceAdj; open: graph_rate_eq_grid_rate needs C01's engine model (checked on the real code).",
         technique="Lean 4 proof over translator-generated formulas + exhaustive differential correspondence",
         design="§6 C15"),
+    "C19": dict(
+        text="Lean theorems about a line-by-line model of Reaction._fromstring / to_string / ssto / psto / dsto / order / "
+             "k*_units_dimensions / process_unitvar_input / split / equilibrium_constant / RDNetwork._assert_validity: "
+             "parsing a rendered equation (any spacing, any labels allowed by the rules) gives the written coefficients with "
+             "repeats summed; dsto = psto - ssto; order = sum of coefficients; print-parse round trip; k dimension = "
+             "(3n-3, -1, 1-n); bare numbers get it, other dimensions are rejected; split; K = kf/kr in SI; network "
+             "refusals as an iff. Tie: translator group Network (formulas + source constants) + correspondence "
+             "(op reaction / network) + AST oracle on the real code.",
+        note="Lean kernel + {propext, Classical.choice, Quot.sound}; translator; correspondence harness; CPython "
+             "str.split/strip/int/str(int) modelled explicitly (ASCII blanks and digits) and correspondence-tested.",
+        technique="Lean 4 proof over a hand-written parser model + translator-generated formulas + differential correspondence",
+        design="§6 C19"),
+    "C20": dict(
+        text="Lean theorems, one per class of invalid input of the statement, about a model of the package's checks over "
+             "tables regenerated from the sources (alias lists and mandatory keys of every *_from_dict, accepted enumerations "
+             "in Python and in the C++ CompareStr chains, grid size / environment map / index range tests, the dimension "
+             "each quantity field demands, unit symbol lists, coarse-graining map rules): op input = error <-> Invalid input "
+             "(or Invalid -> error), and no_cross_entry from index injectivity. Tie: translator groups Validation / IndexPy / "
+             "Network / Units + correspondence (op validate) + oracle on the real code: valid random nested models x one "
+             "injected fault x every level; exhaustive out-of-range index / triple sweep with state compared before/after.",
+        note="Lean kernel + {propext, Classical.choice, Quot.sound}; translator; correspondence harness; the whole-build "
+             "outcome is attributed to the single injected fault (the unfaulted model is first accepted by the real code).",
+        technique="Lean 4 proof over translator-generated validation tables + fault-injection differential correspondence",
+        design="§6 C20"),
+    "C16": dict(
+        text="Lean theorems on the hand-written model of coarsegrain.py (validity tests, aggregation / spreading subscripts and "
+             "statement inventory regenerated from the source): documented validity rules <-> accepted; volume, species totals, "
+             "environments, chemostat flags of every group; coarse edge <-> groups sharing a face, surface = shared faces x h^2, "
+             "distance^2 = centroid distance^2, no self-loops / duplicates; un-coarse-graining spreads evenly, preserves group "
+             "totals, zero on dropped cells; identity map = grid_to_graph (all proved for all inputs). Tie: translator "
+             "CoarsePy/IndexPy + correspondence (ops coarsegrain, cg_check, uncoarsegrain) + brute-force aggregation oracle on "
+             "the real code (face-sharing pairs, shared-face counts, centroid distances from cell coordinates), identity map "
+             "versus plain simulation on the three rebuilt engines.",
+        note="Lean kernel + {propext, Classical.choice, Quot.sound}; translator; cube / square roots compared to the exact model "
+             "within 1e-9 (distances squared); valid_iff assumes environment indices != -2 (the code's unset marker), cg_chem_any "
+             "assumes flags >= 0; identity map on the stochastic engines: identical for equal draws (same seed only when "
+             "nothing diffuses, the grid and graph engines enumerate neighbours in different orders).",
+        technique="Lean 4 proof over translator-generated formulas + differential correspondence",
+        design="§6 C16"),
+    "C17": dict(
+        text="Lean theorems: point accessor = flat index sample*nspecies*ncells + species*ncells + cell (generated formula); "
+             "per-sample state, per-cell trajectory, whole-state block and merged trajectory of the model (numpy C-order reshape as "
+             "stated model) read the same element / block / sum, with the data's units; species by label / index / object and "
+             "cells by index / coordinates resolve to the same entry; the three sample-index lookups (guards, loop tests and "
+             "returned indices regenerated from rdoutput.py) meet their declarative specs for every non-decreasing time list "
+             "and every query, repeated times included (None exactly when no such sample exists; ties to the earlier index; "
+             "first sample not before t), "
+             "and comparisons in any time unit are comparisons of SI values. Tie: translator IndexPy/TrajPy + correspondence "
+             "(op traj on directly constructed and simulated trajectories, grid and graph) + brute-force oracle on the real code.",
+        note="Lean kernel + {propext, Classical.choice, Quot.sound}; translator; numpy reshape/negative-index semantics are a "
+             "stated model.",
+        technique="Lean 4 proof over translator-generated formulas + differential correspondence",
+        design="§6 C17"),
+    "C08": dict(
+        text="Lean theorems over the sampler / lifecycle model: iterate_n(a+b) = iterate_n(a); iterate_n(b), run = iterate_n(k) for the k "
+             "the wall clock allows, completion absorbs every drive call, any two driving schedules that reach completion give the same "
+             "records / clock / state, set-up from any non-crashed process state observes the same (clean slate), every data member is "
+             "assigned in Init (generated inventory), the generator is seeded once in Init and advanced only by draws (generated inventory "
+             "of every statement mentioning rng), an algorithm that ignores a state component records the same trajectory whatever it is "
+             "(Euler over the concrete eulerStep), the stored script keeps the drawn seed. Harness: bitwise comparison of real "
+             "trajectories: fresh-process reference vs random schedules (iterate / iterate_n / run 0|1 ms), reused and fresh engine objects "
+             "after earlier simulations of other kinds, simulate_script, re-run of trajectory.script (also seed None), other seed (Euler).",
+        note="Lean kernel + {propext, Classical.choice, Quot.sound}; translator; harness; bit-identity of the compiled arithmetic and "
+             "of mt19937 streams is observed (sha1 of the raw arrays), not proved.",
+        technique="Lean 4 proof over an executable model tied to translator-generated inventories + bitwise differential runs in sandboxed processes",
+        design="§6 C08"),
+    "C09": dict(
+        text="Lean theorems over an executable model of the native sampler (Sample, SampleOnTSample, SampleOnInterval, SamplingStep, "
+             "CheckTMax, Init's t=0 step, the Iterate skeleton of the six algorithms; abstract algorithm step, exact clock): shape and "
+             "order of the exported buffer, strictly increasing policy times, non-decreasing times with explicit sample() calls, t=0 record = "
+             "initial state, a step is recorded iff a requested time / a multiple of the interval lies in (previous step, this step] "
+             "(sorted requests), one record per step, every step / none, fixed-step clock n*dt with completion exactly at the first step "
+             "beyond t_max, default t_max. Tie: generated loop conditions, bodies, dispatch, Iterate statement lists, Init assignments, "
+             "export index formulas, policy tables (theorems of the form Gen.item = literal) + correspondence `lifecycle` (real engine "
+             "driven step by step in a sandboxed child, model replays the calls on the observed clock) + contract oracle on the real "
+             "t/data.",
+        note="Lean kernel + {propext, Classical.choice, Quot.sound}; translator; correspondence harness; float clock: exact for dyadic "
+             "dt, else 1e-9 relative and +-1 step as the statement allows; the algorithm step itself is abstract here (C01/C07 cover it).",
+        technique="Lean 4 proof over an executable model tied to translator-generated source text + differential correspondence",
+        design="§6 C09"),
+    "C10": dict(
+        text="Lean theorems over an executable model of the engine lifecycle (native globals with null/live/dangling pointers, "
+             "engineexport_* entry points, LibRDEngine wrapper attributes, one or two engine objects on one library): no call faults "
+             "on lifecycle-respecting single-object histories, iterate_n/run are finite compositions of Iterate, fixed-step completion after "
+             "floor(t_max/dt)+1 steps (= ceil +-1), completion absorbing for every drive call, status refers to the current set-up, output "
+             "fetch is pure, finalize idempotent, set-up from any non-crashed world observes the same (clean slate), independence for "
+             "non-overlapping live intervals; the full independence statement is proved FALSE by a concrete history (known finding), "
+             "as are use-after-finalize and iterate_n(0)-after-completion (reported findings). Tie: generated entry-point bodies, "
+             "globals, wrapper statements + correspondence `lifecycle` on call histories run in sandboxed children + reference state "
+             "machine oracle (returns in time, completion step, status, fresh-process trajectories).",
+        note="Lean kernel + {propext, Classical.choice, Quot.sound}; translator; correspondence harness; termination of the native loops "
+             "inside one step and of the redistribution loop is observed (time-outs), not proved (C14 owns the loop).",
+        technique="Lean 4 proof over an executable state-machine model tied to translator-generated source text + differential correspondence in sandboxed processes",
+        design="§6 C10"),
+    "C11": dict(
+        text="PARTIAL BY NATURE. Lean theorems on the engine model: flat2/flat3 index bounds, the loop condition of SampleOnTSample "
+             "never reads t_samples out of range given the regenerated conjunct order, the diffusion event selected by Gillespie and "
+             "every tau-leap Poisson call belong to a slot with a neighbour, std::poisson_distribution is only constructed with a positive "
+             "mean (regenerated guards, count of constructions), the allocation state machine never double-frees or uses a freed object "
+             "(C10's invariant), and every vector[index] of the engine sources (162 occurrences, regenerated) has a registered bounded "
+             "index form. Oracle = the property's observation point: the working tree's engine compiled with -D_GLIBCXX_ASSERTIONS "
+             "and with ASan+UBSan, driven through the Python API over degenerate shapes, all policies / modes, coarse steps, repeated "
+             "output fetches, double finalize, calls on a released engine; plain and hardened builds must agree bitwise.",
+        note="Lean kernel + {propext, Classical.choice, Quot.sound}; translator; the compiled program's memory behaviour is observed on "
+             "sampled inputs with sanitizers (no uninitialised-read detection), not proved; int overflow excluded by the size assumption.",
+        technique="Lean 4 proof of index/guard logic over an executable model + subscript registry from the translator + sanitizer-instrumented differential runs",
+        design="§6 C11"),
+    "C02": dict(
+        text="Lean theorems, for all networks / topologies / states / draws / count vectors / time steps and any number of "
+             "steps, for every rational (hence every integer) vector c in the left null space of the stoichiometric matrix "
+             "with no chemostated entry in its support: a reaction firing and a diffusion jump leave total c unchanged; one "
+             "Gillespie Iterate conserves (every pair of draws); one tau-leap Apply_nevt conserves for EVERY count vector; "
+             "lifted by induction to runs; Euler: exact identity over Q, unconditional for every valid grid (all sizes and "
+             "boundary settings: half-edges paired by the opposed direction, sum of an antisymmetric flux via an involution, "
+             "neighbour involution from the generated tables) and for every graph (induction over the edge list, parallel "
+             "edges and self-loops included); species in no reaction / diffusion-only are special cases. Tie: statement lists of all "
+             "apply / derivative functions pinned against the modelled snapshot + replay correspondence of recorded steps of "
+             "all three engines + oracle: exact integer left null space, totals on every recorded sample of real trajectories.",
+        note="Exact over Q; float drift of the Euler engine bounded by 1e-9 relative per step is checked on every recorded "
+             "step, not proved. The model's reading of the C++ is tied by the pinned statement lists + step replay.",
+        technique="Lean 4 proof (induction + Finset involution) + differential correspondence + null-space oracle",
+        design="§6 C02"),
+    "C07": dict(
+        text="Lean theorems about the engine model (one model for grid and graph algorithms), for all networks, topologies, "
+             "states and draws: reaction propensity = k_env * V^(1-n) * prod_s x_s(x_s-1)...(x_s-nu_s+1) when enough reactants, "
+             "else 0 (= nu! * C(x,nu) for integer amounts); positive iff constant non-zero and enough reactants; diffusion "
+             "propensity = amount x rate-law constant (grid D/h^2, graph D*S/(V*d), zero interface diffusivity => 0); the "
+             "engine's two-level cumulative search equals one flat scan over the channel list; channel k is selected exactly on "
+             "an interval of length a_k (so with probability a_k/a0 under a uniform draw) and has a_k>0; every Gillespie step "
+             "applies exactly one legal event (effect masked by chemostats, propensity not), keeps the state a non-negative "
+             "integer state, advances time by L/a0>0; by induction all recorded states/times of any trajectory; dt=log(1/u)/a0 "
+             "is the inverse CDF of Exp(a0) (Mathlib real analysis); tau-leap Poisson means are propensity*dt in call order, "
+             "mean<=0 draws nothing. Tie: statement lists of all step functions pinned against the modelled snapshot "
+             "(translator group Stoch) + per-step draw-replay correspondence + independent CME oracle on every recorded step.",
+        note="Distributions of std::uniform_real_distribution / poisson_distribution / mt19937 are trusted (partial by design); "
+             "no statistical test; float edge cases of the selection (margin < 1e-9 a0) skipped and counted.",
+        technique="Lean 4 proof over a draw-stream model + draw-replay differential correspondence",
+        design="§6 C07"),
+    "C14": dict(
+        text="Lean theorems about the model of engine.cpp's initial-state processing as a function of the primitive draw "
+             "stream, for all states / sizes / draw streams: mode selection (auto = redist for stochastic engines, none for "
+             "Euler; script-accepted modes all processed, others rejected), species-major <-> cell-major layout round trip "
+             "(generated index formulas), 'none' is the identity, redistribution yields non-negative integers with per-species "
+             "total = floor of the real total and support inside the support of the input, Poisson-mode layout (k-th draw has "
+             "the k-th positive amount as mean and is stored at that entry; zero stays zero); progress interval for the "
+             "correction loop (termination w.p.1 is partial: no measure theory). Tie: translator group Stoch (statement lists "
+             "of GenerateStochasticDistribution and of the dispatch pinned against the modelled snapshot, switch constant, "
+             "Python accepted modes/default) + draw-replay correspondence on the rebuilt, draw-logging engine + independent "
+             "oracle on sample 0 (sandboxed with time-out).",
+        note="Lean kernel + {propext, Classical.choice, Quot.sound}; translator; shimmed <random>; distributions of the std "
+             "primitives and mt19937 trusted; termination only as a progress-interval theorem.",
+        technique="Lean 4 proof over a draw-stream model + draw-replay differential correspondence",
+        design="§6 C14"),
 }
 
 ALL = ["C%02d" % i for i in range(1, 21)]
